@@ -59,3 +59,10 @@ Check write_preserves :
   forall st idx p st', store_ok st -> lookup idx st = None -> persp_ok st p ->
     write st idx p = ROk st' -> store_ok st'.
 Print Assumptions write_preserves.
+
+(** the halving boundaries are always computed (no assume site, fuel suffices) for a u64 length *)
+Theorem skip_target_boundaries_total : skip_target_boundaries_total_stmt.
+Proof. exact skip_target_boundaries_total_proof. Qed.
+Check skip_target_boundaries_total :
+  forall n, (n <= u64_max)%N -> exists l, skip_target_boundaries n = ROk l.
+Print Assumptions skip_target_boundaries_total.
